@@ -41,7 +41,9 @@ def case_strategy(draw: Any) -> Dict[str, Any]:
         "shutdown_timeout": draw(st.sampled_from([2.0, 60.0])),
         "conns": draw(st.lists(st.sampled_from(PHASES), min_size=0, max_size=5)),
         "trigger": draw(st.sampled_from(["callable", "callable", "max_requests"])),
-        "lifespan_delay": draw(st.sampled_from([0.0, 0.0, 1.0])),
+        # how long lifespan shutdown takes: at once, a second, or never (the server then gives
+        # up after shutdown_timeout - not after some other time-out)
+        "lifespan_delay": draw(st.sampled_from([0.0, 0.0, 1.0, 1e6])),
         # how the slow applications spread their response over time: all of it at the end, or
         # the body early and only the (empty / last) final message inside the grace period
         "tail": draw(st.sampled_from(["none", "none", "empty", "data"])),
@@ -196,7 +198,9 @@ def judge(case: Dict[str, Any], res: Any) -> None:
     tag = {"backend": be, "trigger": case["trigger"]}
     if res.spin:
         raise Violation("spin", res.spin, **tag)
-    if res.serve_exc is not None:
+    if res.serve_exc is not None and not (
+            case["lifespan_delay"] > case["shutdown_timeout"]
+            and "LifespanTimeoutError" in repr(res.serve_exc)):
         raise Violation("serve_raised", repr(res.serve_exc), **tag)
     val = res.value
     t0 = val["t_trigger"]
@@ -325,6 +329,7 @@ def judge(case: Dict[str, Any], res: Any) -> None:
 def run_case(case: Dict[str, Any]) -> CaseInfo:
     cfg: Dict[str, Any] = {"graceful_timeout": case["graceful"],
                            "shutdown_timeout": case["shutdown_timeout"],
+                           "startup_timeout": 25.0,  # (different from either shutdown_timeout)
                            "keep_alive_timeout": 1000.0}
     if case["trigger"] == "max_requests":
         cfg["max_requests"] = n_requests_before_trigger(case)
